@@ -1,0 +1,99 @@
+//go:build verif
+
+// Verification hooks: export unexported internals to the external verification
+// harness (/verif). Compiled only with `-tags verif`; adds no behaviour.
+
+package region
+
+import (
+	"net"
+	"sync/atomic"
+
+	"github.com/tsuna/gohbase/compression"
+	"github.com/tsuna/gohbase/hrpc"
+	"google.golang.org/protobuf/proto"
+)
+
+// VerifExceptionToError exposes exceptionToError.
+func VerifExceptionToError(class, stack string) error { return exceptionToError(class, stack) }
+
+// VerifExceptionTables returns copies of the three Java exception tables.
+func VerifExceptionTables() (regionEx, retryable, server map[string]string) {
+	cp := func(m map[string]string) map[string]string {
+		o := make(map[string]string, len(m))
+		for k, v := range m {
+			o[k] = v
+		}
+		return o
+	}
+	return cp(javaRegionExceptions), cp(javaRetryableExceptions), cp(javaServerExceptions)
+}
+
+// VerifCompress runs compressCellblocks with the given codec and returns a copy.
+func VerifCompress(codec compression.Codec, cbs [][]byte, uncompressedLen uint32) []byte {
+	c := &compressor{Codec: codec}
+	out := c.compressCellblocks(net.Buffers(cbs), uncompressedLen)
+	cp := append([]byte(nil), out...)
+	freeBuffer(out)
+	return cp
+}
+
+// VerifDecompress runs decompressCellblocks with the given codec.
+func VerifDecompress(codec compression.Codec, b []byte) ([]byte, error) {
+	c := &compressor{Codec: codec}
+	return c.decompressCellblocks(b)
+}
+
+// VerifInFlight returns the in-flight counter of a region client created by NewClient.
+func VerifInFlight(rc hrpc.RegionClient) uint32 {
+	c := rc.(*client)
+	c.inFlightM.Lock()
+	defer c.inFlightM.Unlock()
+	return c.inFlight
+}
+
+// VerifSentLen returns the number of registered (sent, unanswered) calls.
+func VerifSentLen(rc hrpc.RegionClient) int {
+	c := rc.(*client)
+	c.sentM.Lock()
+	defer c.sentM.Unlock()
+	return len(c.sent)
+}
+
+// VerifCallID returns the last allocated call id.
+func VerifCallID(rc hrpc.RegionClient) uint32 { return atomic.LoadUint32(&rc.(*client).id) }
+
+// VerifIsDone reports whether the region client has failed / been closed.
+func VerifIsDone(rc hrpc.RegionClient) bool {
+	select {
+	case <-rc.(*client).done:
+		return true
+	default:
+		return false
+	}
+}
+
+// VerifMarshalProto exposes marshalProto.
+func VerifMarshalProto(rpc hrpc.Call, callID uint32, request proto.Message,
+	cellblocksLen uint32) ([]byte, error) {
+	return marshalProto(rpc, callID, request, cellblocksLen)
+}
+
+// VerifMulti wraps a multi.
+type VerifMulti struct{ m *multi }
+
+// VerifNewMulti creates a multi of the given queue size.
+func VerifNewMulti(queueSize int) *VerifMulti { return &VerifMulti{m: newMulti(queueSize)} }
+
+func (v *VerifMulti) Add(calls []hrpc.Call) bool { return v.m.add(calls) }
+func (v *VerifMulti) Len() int                   { return v.m.len() }
+func (v *VerifMulti) Call() hrpc.Call            { return v.m }
+func (v *VerifMulti) ToProto() proto.Message     { return v.m.ToProto() }
+func (v *VerifMulti) SerializeCellBlocks() (proto.Message, [][]byte, uint32) {
+	return v.m.SerializeCellBlocks(nil)
+}
+func (v *VerifMulti) Regions() []hrpc.RegionInfo { return v.m.regions }
+func (v *VerifMulti) DeserializeCellBlocks(msg proto.Message, b []byte) (uint32, error) {
+	return v.m.DeserializeCellBlocks(msg, b)
+}
+func (v *VerifMulti) ReturnResults(msg proto.Message, err error) { v.m.returnResults(msg, err) }
